@@ -45,10 +45,10 @@ CHECKS = {
         "technique": "property-based testing: position x source matrix with a verdict oracle in both directions (Hypothesis)",
     },
     "C05": {
-        "text": "Targeted generation: a fully annotated world plus one generated target (function/method/constructor signature, annotated definition, declared return type) and one use planted at one of 12 positions; 2/7 conforming (must be accepted), 5/7 with one single-point non-conforming mutation (must be rejected with diagnostics). ~11k cases per quick run; the kind x position x mutation histogram is part of the evidence.",
+        "text": "Three generators. (nest) NestGen: blocks nested up to depth 4 (if/else, match, loops, handle; top level, function, method) with annotated definitions at every level and uses of any visible definition at deeper levels; 2/3 of the cases replace one use by a literal or by another visible variable of a definitely non-conforming type. (chain) chains of 3-4 classes with a method overridden further down with an unrelated parameter type; calls through instances and through self conform iff they conform to the nearest definition. (targeted) a fully annotated world plus one generated target (function/method/constructor signature, annotated definition, declared return type) and one use planted at one of 12 positions; 2/7 conforming (must be accepted), 5/7 with one single-point non-conforming mutation (must be rejected with diagnostics). ~11k cases per quick run; the kind x position x mutation histogram is part of the evidence.",
         "design_ref": "DESIGN.md section 6 C05",
         "note": "Subtyping used for 'conforming' is exactly Int <: Float, B <: A, T <: Any; undocumented pairs are never used. Unexpected verdicts are re-run 10x (C12). Two open over-rejection findings steer the value generator.",
-        "technique": "property-based testing: single-point mutation of conforming uses with a verdict oracle from the declared signatures (Hypothesis)",
+        "technique": "property-based testing: generated nested programs / class chains with one planted non-conforming use, and single-point mutation of targeted conforming uses; verdict oracle from the declared signatures (Hypothesis)",
     },
     "C15": {
         "text": "Metamorphic check: CoreGen, API-shaped (members in any order) and WideGen programs and an injective renaming of their user-chosen names into ordinary and special-looking names, chains of prefix-related names, and (a quarter of the cases) a renaming under which any two identifiers are prefix-related; verdicts must agree, the output of the renamed program must be the renamed output (Python ast), and no renamed name may capture an identifier the generator itself introduced (scope-aware, via symtable). Two open findings remove the names they concern from the pool.",
@@ -117,7 +117,7 @@ CHECKS = {
         "technique": "property-based testing: type-directed program generation + differential execution against a reference interpreter (Hypothesis)",
     },
     "C10": {
-        "text": "Finite enumeration (435k trees: every parent/slot/child and parent/slot/child/slot/grandchild combination and every binary parent with two compound children over 49 constructors incl. the desugared shapes) of hand-built Core trees printed by mamba's Display, plus random deeper trees and end-to-end Mamba expressions in 10 statement contexts; round-trip oracle: CPython's ast.parse of the printed text must equal the tree. The enumeration is complete for its stated sub-space; deeper trees are sampled.",
+        "text": "Finite enumeration (435k trees: every parent/slot/child and parent/slot/child/slot/grandchild combination and every binary parent with two compound children over 49 constructors incl. the desugared shapes) of hand-built Core trees printed by mamba's Display, plus random deeper trees, end-to-end Mamba expressions in 10 statement contexts, and nested tuples / lists / call arguments / builder conditions in 12 statement contexts judged by the values the emitted module prints; round-trip oracle: CPython's ast.parse of the printed text must equal the tree. The enumeration is complete for its stated sub-space; deeper trees are sampled.",
         "design_ref": "DESIGN.md section 6 C10, appendix A",
         "note": "Trusted: CPython 3.11 ast.parse as definition of Python grouping; the Core->ast table (appendix A); and/or compared after flattening same-operator chains. Invalid emitted Python is left to C02.",
         "technique": "property-based testing: exhaustive small-scope enumeration + random trees + end-to-end round-trip through CPython's parser (Hypothesis)",
@@ -129,7 +129,7 @@ CHECKS = {
         "technique": "property-based testing: exhaustive pair enumeration + generated inputs against a positional/round-trip oracle (Hypothesis)",
     },
     "C03": {
-        "text": "Generated-input search for crashes and hangs: ~40k (quick) / ~1M (thorough) mutated, random and adversarial inputs per run through the real pipeline in an isolated worker; every panic, abort or confirmed CPU time-out is a violation. Absence is not established; the claim is 'no crash on everything generated within the stated size bounds'.",
+        "text": "Generated-input search for crashes and hangs: ~40k (quick) / ~1M (thorough) mutated, random and adversarial inputs (incl. freshly generated WideGen / API / ScopeGen / shape-stress programs as mutation bases and a catalogue of every special name in every defining position) per run through the real pipeline in an isolated worker; every panic, abort or confirmed CPU time-out is a violation. Absence is not established; the claim is 'no crash on everything generated within the stated size bounds'.",
         "design_ref": "DESIGN.md section 6 C03",
         "note": "Worker thread stack = 8 MiB (main-thread stack of the product), overflow checks on; inputs bounded to 1 KiB / 200 lines / nesting 40 / 4 files; time bound 120 s thread-CPU.",
         "technique": "property-based testing: token-level mutation fuzzing + adversarial catalogue against a crash/termination oracle (Hypothesis)",
